@@ -844,6 +844,63 @@ def oracle_build_only(m: onnx.ModelProto, seed: int) -> list[tuple[str, str]]:
     return fails
 
 
+HOSTILE_HIST: dict[str, int] = {}
+
+
+def oracle_hostile_names(m: onnx.ModelProto, seed: int, variants=None) -> list[tuple[str, str]]:
+    """The complement of build_scope_prefixFree's condition: user-chosen argument / result names inside
+    the `Inline_0__` family (or equal to a generated name). The build must raise or be correct - never
+    a wrong or invalid model. Model-free."""
+    from spox import argument, build, inline
+
+    rng = random.Random(seed)
+    fails = []
+    m_ref = fresh(m.SerializeToString(deterministic=True))
+    ins = [i.name for i in m.graph.input]
+    outs = [o.name for o in m.graph.output]
+    inner = sorted({n for nd in m.graph.node for n in list(nd.output) + [nd.name]} | {i.name for i in m.graph.initializer}
+                   - set(ins) - set(outs) - {""}) or ["x"]
+    vals = input_values(rng, m)
+    try:
+        d = dict(zip(outs, ort_run(m_ref, vals)))
+    except Exception as e:  # noqa: BLE001
+        raise Infra(f"onnxruntime cannot run m itself: {e}") from e
+    for variant in (variants or [rng.choice(["arg-clash", "res-clash", "arg-family", "res-generated", "both"])]):
+        t = rng.choice(inner)
+        arg_keys = [f"arg_{j}" for j in range(len(ins))]
+        res_keys = [f"res_{k}" for k in range(len(outs))]
+        if variant in ("arg-clash", "both"):
+            arg_keys[rng.randrange(len(ins))] = f"Inline_0__{t}"
+        if variant == "arg-family":
+            arg_keys[rng.randrange(len(ins))] = "Inline_0__no_such_inner_name"
+        if variant in ("res-clash", "both"):
+            res_keys[rng.randrange(len(outs))] = f"Inline_0__{rng.choice(inner)}"
+        if variant == "res-generated":
+            res_keys[rng.randrange(len(outs))] = f"Inline_0_outputs_{rng.randrange(len(outs))}"
+        try:
+            with warnings.catch_warnings():
+                warnings.simplefilter("ignore")
+                A = [argument(spox_type(concrete(L.type_json(i.type)))) for i in m.graph.input]
+                r = inline(m)(*A)
+                built = build(dict(zip(arg_keys, A)), {rk: r[o] for rk, o in zip(res_keys, outs)})
+        except Exception as e:  # noqa: BLE001 - refusing is fine
+            key = f"{variant}:raised:{type(e).__name__}"
+            HOSTILE_HIST[key] = HOSTILE_HIST.get(key, 0) + 1
+            continue
+        try:
+            got = dict(zip([o.name for o in built.graph.output], ort_run(built, dict(zip(arg_keys, [vals[n] for n in ins])))))
+        except Exception as e:  # noqa: BLE001
+            fails.append(("invalid-model-under-hostile-names", f"{variant}: build accepted names {arg_keys} -> {res_keys} but onnxruntime refuses the model: {str(e)[:200]}"))
+            continue
+        bad = [rk for rk, o in zip(res_keys, outs) if not same(got[rk], d[o])]
+        if bad:
+            fails.append(("wrong-model-under-hostile-names", f"{variant}: names {arg_keys} -> {res_keys}: output {bad[0]} = {np.asarray(got[bad[0]]).tolist()} but m computes {np.asarray(d[outs[res_keys.index(bad[0])]]).tolist()}"))
+        else:
+            key = f"{variant}:built-correctly"
+            HOSTILE_HIST[key] = HOSTILE_HIST.get(key, 0) + 1
+    return fails
+
+
 def oracle_errors(m: onnx.ModelProto, seed: int) -> list[tuple[str, str]]:
     """Wrong calls must raise TypeError at the call; local functions => ValueError. Model-free."""
     from spox import argument, inline
@@ -1282,6 +1339,12 @@ def _oracle_phase(ck, models, snaps, rng, scope_obs):
                                        "summary": L.summary(m), "features": meta["features"]})
             ck.count(("build-only", mi))
             continue
+        if "oracle-only" not in meta["features"]:
+            seed2 = rng.randrange(1 << 30)
+            hv = ["arg-clash", "res-clash", "arg-family", "res-generated", "both"] if meta["kind"] == "corner" else None
+            for key, what in oracle_hostile_names(fresh(snaps[mi]), seed2, hv):
+                ck.failure(key, what, {"kind": "hostile-names", "model": L.to_b64(fresh(snaps[mi])), "seed": seed2,
+                                       "variants": hv, "summary": L.summary(m), "features": meta["features"]})
         forms = list(FORMS) if (ck.thorough or meta["kind"] == "corner") else ["once"] + rng.sample(FORMS[1:], 3)
         for form in forms:
             if form == "chained" and "no-chain" in meta["features"]:
@@ -1295,7 +1358,7 @@ def _oracle_phase(ck, models, snaps, rng, scope_obs):
                 ck.failure(key, what, {"kind": "compose", "form": form, "model": L.to_b64(m), "seed": seed1,
                                        "summary": L.summary(m), "features": meta["features"]})
         ck.sample({"model": L.summary(m), "features": meta["features"]}, 4)
-    ck.cov.update({"oracle_compositions": n_oracle, "oracle_forms": form_hist})
+    ck.cov.update({"oracle_compositions": n_oracle, "oracle_forms": form_hist, "hostile_outer_names": dict(sorted(HOSTILE_HIST.items()))})
 
 
 def _finish_evidence(ck):
@@ -1330,6 +1393,8 @@ def replay(ck: core.Check, doc) -> bool:
         warnings.simplefilter("ignore")
         if case["kind"] == "purity":
             fs = purity(m)
+        elif case["kind"] == "hostile-names":
+            fs = oracle_hostile_names(m, case["seed"], case.get("variants"))
         elif case["kind"] == "build-only":
             fs = oracle_build_only(m, case["seed"])
         elif case["kind"] == "errors":
